@@ -12,7 +12,8 @@ open Pandora.Model.C17
 /-- `newDecoderConfig` + position of `VariableInjectHook` in `DefaultHooks()` are the model's flags -/
 theorem flags_eq :
     (⟨Gen.Config.errorUnused, Gen.Config.zeroFields, Gen.Config.defaultHooks.head? == some "VariableInjectHook",
-      Gen.Config.defaultHooks.contains "WholeNumberHook"⟩ : Flags) = repoFlags := by decide
+      Gen.Config.defaultHooks.contains "WholeNumberHook", Gen.Config.defaultHooks.contains "NumberRangeHook"⟩ : Flags) =
+      repoFlags := by decide
 
 /-- the model covers the strict kind switch only -/
 theorem weaklyTyped_off : Gen.Config.weaklyTypedInput = false := rfl
@@ -25,11 +26,11 @@ theorem other_flags : Gen.Config.squashFlag = false ∧ Gen.Config.errorUnset = 
 theorem decoderFields_eq :
     Gen.Config.decoderFields = ["DecodeHook", "ErrorUnused", "Result", "TagName", "WeaklyTypedInput", "ZeroFields"] := rfl
 
-/-- the hook chain: placeholders first, then the whole-number guard, the text / duration / url / ip / size hooks, then (core/import) the sink
+/-- the hook chain: placeholders first, then the whole-number and number-range guards, the text / duration / url / ip / size hooks, then (core/import) the sink
 string shortcut, the schedule list shortcut and the two plugin hooks — the order `decode` applies them in -/
 theorem hooks_eq :
     Gen.Config.hooksInit = "DefaultHooks()" ∧
-    Gen.Config.defaultHooks = ["VariableInjectHook", "WholeNumberHook", "DebugHook", "TextUnmarshallerHook",
+    Gen.Config.defaultHooks = ["VariableInjectHook", "WholeNumberHook", "NumberRangeHook", "DebugHook", "TextUnmarshallerHook",
       "mapstructure.StringToTimeDurationHookFunc()", "StringToURLHook", "StringToIPHook", "StringToDataSizeHook"] ∧
     Gen.Config.importHooks = ["sinkStringHook", "scheduleSliceToCompositeConfigHook", "pluginconfig.AddHooks()"] ∧
     Gen.Config.pluginHooks = ["Hook", "FactoryHook"] ∧
@@ -41,6 +42,26 @@ theorem whole_number_hook :
     Gen.Config.wholeNumberPass = "f != reflect.Float32 && f != reflect.Float64" ∧
     Gen.Config.wholeNumberKinds = ["Int", "Int8", "Int16", "Int32", "Int64", "Uint", "Uint8", "Uint16", "Uint32", "Uint64"] ∧
     Gen.Config.wholeNumberRefuses = "math.IsInf(v, 0) || v != math.Trunc(v)" := ⟨rfl, rfl, rfl⟩
+
+/-- `NumberRangeHook` as `fitsKind` / `decodeScalarWith` have it (x3 the number, x4 the verdict, x5 / x6 the width of the
+target from `kindBits`): an integer target of width b holds an integer source iff shifting it right by b-1 leaves 0 or
+-1 (−2^(b−1) ≤ n < 2^(b−1)), an unsigned source iff that shift leaves 0, a float source iff −2^(b−1) ≤ x < 2^(b−1); an
+unsigned target of width b holds a non-negative integer iff the shift by b leaves 0 (64 bits: always), a float iff
+x < 2^b (a negative source is passed on: the kind switch reports it); a float32 holds a finite float iff its magnitude
+is at most math.MaxFloat32; the hook refuses exactly when the verdict is false; the widths are 8, 16, 32, 64 and
+strconv.IntSize for Int / Uint -/
+theorem number_range_hook :
+    Gen.Config.numberRangeTable = [
+      ("Float32", "Float32,Float64", "x4 = math.IsInf(x3.Float(), 0) || !(math.Abs(x3.Float()) > math.MaxFloat32)"),
+      ("Int,Int8,Int16,Int32,Int64", "Float32,Float64", "x4 = -math.Ldexp(1, x5-1) <= x3.Float() && x3.Float() < math.Ldexp(1, x5-1)"),
+      ("Int,Int8,Int16,Int32,Int64", "Int,Int8,Int16,Int32,Int64", "x4 = x3.Int()>>(x5-1) == 0 || x3.Int()>>(x5-1) == -1"),
+      ("Int,Int8,Int16,Int32,Int64", "Uint,Uint8,Uint16,Uint32,Uint64", "x4 = x3.Uint()>>(x5-1) == 0"),
+      ("Uint,Uint8,Uint16,Uint32,Uint64", "Float32,Float64", "x4 = x3.Float() < math.Ldexp(1, x6)"),
+      ("Uint,Uint8,Uint16,Uint32,Uint64", "Int,Int8,Int16,Int32,Int64", "x4 = x3.Int() < 0 || x6 == 64 || x3.Int()>>x6 == 0"),
+      ("Uint,Uint8,Uint16,Uint32,Uint64", "Uint,Uint8,Uint16,Uint32,Uint64", "x4 = x6 == 64 || x3.Uint()>>x6 == 0")] ∧
+    Gen.Config.numberRangeRefuses = "!x4" ∧
+    Gen.Config.kindBitsTable = [("Int16,Uint16", "16"), ("Int32,Uint32", "32"), ("Int64,Uint64", "64"), ("Int8,Uint8", "8")] ∧
+    Gen.Config.kindBitsDefault = "strconv.IntSize" := ⟨rfl, rfl, rfl, rfl⟩
 
 /-- the registered resolvers are the ones `resolveTag` knows: `""` and `env` read the environment, `property` a file -/
 theorem resolvers_eq :
@@ -219,14 +240,15 @@ theorem tag_grammar :
     Gen.Config.castCondition = "len(tokens) == 1 && strings.TrimSpace(s) == tokens[0].string" := ⟨rfl, rfl⟩
 
 /-- `confutil.cast` as `castTo` has it: signed kinds parse signed, UNSIGNED KINDS PARSE UNSIGNED, each at the bit size
-of the target, base 0; floats at 64 bits; bool through ParseBool; strings unchanged -/
+of the target, base 0; floats at the bit size of the target too (a text beyond the float32 range is no float32: `castFloat`);
+bool through ParseBool; strings unchanged -/
 theorem cast_table :
     Gen.Config.castTable = [("Bool", "castBool"), ("Int", "castInt"), ("Int8", "castInt"), ("Int16", "castInt"),
       ("Int32", "castInt"), ("Int64", "castInt"), ("Uint", "castUint"), ("Uint8", "castUint"), ("Uint16", "castUint"),
       ("Uint32", "castUint"), ("Uint64", "castUint"), ("Float32", "castFloat"), ("Float64", "castFloat"),
       ("String", "return v")] ∧
     Gen.Config.castParse = [("castBool", "strconv.ParseBool"), ("castInt", "strconv.ParseInt 0 t.Bits()"),
-      ("castUint", "strconv.ParseUint 0 t.Bits()"), ("castFloat", "strconv.ParseFloat 64")] ∧
+      ("castUint", "strconv.ParseUint 0 t.Bits()"), ("castFloat", "strconv.ParseFloat t.Bits()")] ∧
     Gen.Config.castKinds = [("castBool", []), ("castInt", ["Int", "Int8", "Int16", "Int32", "Int64"]),
       ("castUint", ["Uint", "Uint8", "Uint16", "Uint32", "Uint64"]), ("castFloat", ["Float32", "Float64"])] :=
   ⟨rfl, rfl, rfl⟩
